@@ -59,6 +59,7 @@ type OFile struct {
 	Used      []string  `json:"used"`    // unresolved selector bases (what internal/imports.Prune calls used)
 	Sels      []OSel    `json:"sels"`    // every selector base with what Go's scoping says about it (input of the model's walk)
 	Sha       string    `json:"sha"`     // SHA-256 of the file's bytes
+	Bytes     string    `json:"bytes,omitempty"` // round 6: byte-level shape when it is not gofmt's: bom, crlf / mixed-eol, no-final-newline, space-indent, non-ascii
 	Raw       string    `json:"-"`
 }
 
@@ -142,6 +143,12 @@ func observeFile(path string) OFile {
 	src := string(b)
 	of.Raw = src
 	of.Sha = fmt.Sprintf("%x", sha256.Sum256(b))
+	// round 6: the declarations are handed to the model / Spec in gofmt's line-ending normal form (no BOM, LF): every
+	// regenerated file goes through gofmt, whose scanner drops the carriage returns (also inside comments and raw
+	// strings) and the byte order mark. Sha and Raw stay the real bytes.
+	of.Bytes = byteShapeOf(src)
+	b = []byte(strings.ReplaceAll(strings.TrimPrefix(string(b), "\xef\xbb\xbf"), "\r\n", "\n"))
+	src = string(b)
 	fset := token.NewFileSet()
 	f, err := parser.ParseFile(fset, path, b, parser.ParseComments|parser.AllErrors)
 	if err != nil {
@@ -278,6 +285,31 @@ func observeFile(path string) OFile {
 		}
 	}
 	return of
+}
+
+func byteShapeOf(s string) string {
+	var fs []string
+	if strings.HasPrefix(s, "\xef\xbb\xbf") {
+		fs = append(fs, "bom")
+	}
+	if crlf, lf := strings.Count(s, "\r\n"), strings.Count(s, "\n"); crlf > 0 && crlf == lf {
+		fs = append(fs, "crlf")
+	} else if crlf > 0 {
+		fs = append(fs, "mixed-eol")
+	}
+	if s != "" && !strings.HasSuffix(s, "\n") {
+		fs = append(fs, "no-final-newline")
+	}
+	if strings.Contains(s, "\n    ") {
+		fs = append(fs, "space-indent")
+	}
+	for i := 0; i < len(s); i++ {
+		if s[i] >= 0x80 && !(i < 3 && strings.HasPrefix(s, "\xef\xbb\xbf")) {
+			fs = append(fs, "non-ascii")
+			break
+		}
+	}
+	return strings.Join(fs, ",")
 }
 
 func min(a, b int) int {
